@@ -12,14 +12,14 @@ import warnings
 
 from ..core import hx
 from ..ref import wire, keys as RK, sig as RS, grammar, armor
-from .. import pool, keyshape, gpgx
+from .. import pool, keyshape, gpgx, foreignkey
 from ..oracle_selftest import verify_key_blob
 
 LEVEL = 'exploration'
 RULE = ('case = key shape (generated from the seed) or a concatenation of shapes; one evaluation per export/import pass compared; non-trivial = shape with at '
         'least two components carrying signatures, or a non-exportable signature, or equal creation times; distinct = distinct shape descriptors')
 ASSUMPTIONS = ['vf.ref.grammar transferable-key parser (11.1/11.2)', 'signature validity per vf.ref.sig']
-MIN_COUNTERS = {'quick': {'shapes': 100, 'passes_compared': 500, 'signatures_reverified': 1500, 'nonexportable_seen': 20, 'concatenations': 20, 'copies': 120},
+MIN_COUNTERS = {'quick': {'shapes': 100, 'passes_compared': 500, 'signatures_reverified': 1500, 'nonexportable_seen': 20, 'concatenations': 20, 'copies': 120, 'foreign_encoded_keys': 15},
                 'thorough': {'shapes': 1500}}
 BUDGET = {'quick': (600, 1500), 'thorough': (1800, 3600)}
 TECHNIQUE = 'runtime monitoring: differential reference-model monitor (independent transferable-key parser + verifier) over generated key shapes'
@@ -32,6 +32,13 @@ def cases(tier, seed):
         cs.append({'t': 'shape', 'i': i, 'seed': seed})
     for i in range(24 if tier == 'quick' else 800):
         cs.append({'t': 'concat', 'i': i, 'seed': seed})
+    # whole keys written by the reference encoder/signer in encodings that are legal but not PGPy's own
+    pairs = [('ed25519_0', 'cv25519_0'), ('rsa1024_0', 'ed25519_1'), ('ecdsa_p256_0', 'ecdh_p256_1+kdf10.9'), ('dsa1024_0', None), ('ecdsa_p384_0', 'rsa1024_1'), ('ed25519_1', 'ecdsa_p256_1')]
+    for j, style in enumerate(foreignkey.STYLES):
+        for n_, (p, sname) in enumerate(pairs):
+            if tier == 'quick' and (j + n_) % 2:
+                continue
+            cs.append({'t': 'foreignenc', 'style': style, 'primary': p, 'sub': sname, 'protect': (j + n_) % 3 == 0})
     if gpgx.available():
         cs.append({'t': 'gpg', 'seed': seed, 'n': 4 if tier == 'quick' else 20})
     return cs
@@ -68,6 +75,8 @@ def run_case(ctx, d):
             _check_key(ctx, pgpy, k, info, shape, r)
         elif d['t'] == 'concat':
             _concat(ctx, d, pgpy)
+        elif d['t'] == 'foreignenc':
+            _foreignenc(ctx, d, pgpy)
         else:
             _gpg(ctx, d, pgpy)
 
@@ -214,6 +223,45 @@ def _concat(ctx, d, pgpy):
             if dd:
                 ctx.fail('concatenated-key-structure-differs', {'n': n, 'form': form, 'differs': dd})
     ctx.nontrivial({'concat': d['i'], 'n': n})
+
+
+def _foreignenc(ctx, d, pgpy):
+    prot = {'usage': 254, 'cipher': 9, 's2k': (3, 8, b'saltsalt', 0x60), 'iv': bytes(range(16)), 'passphrase': b'foreign pw'} if d['protect'] else None
+    blob, info = foreignkey.build(d['primary'], d['sub'], d['style'], extra_uid=b'Second Identity <second@example.org>', protect=prot)
+    want = keyshape.blob_tree(blob)[0]
+    nsig = len(info['sig_bodies']) + (1 if d['sub'] and pool.mat(d['sub'])['alg'] != 18 else 0)
+    ctx.count('foreign_encoded_keys')
+    where = {'style': d['style'], 'primary': d['primary'], 'sub': d['sub'], 'protected': d['protect']}
+    k = pgpy.PGPKey.from_blob(blob)[0]
+    for gen in range(3):
+        ctx.count('evaluations')
+        ctx.count('passes_compared')
+        dd = keyshape.tree_diff(want, keyshape.obj_tree(k))
+        if dd:
+            ctx.fail('imported-structure-differs-from-export', dict(where, generation=gen, differs=dd, what='signature octets as received'))
+        pk = k if k.is_public else k.pubkey
+        gd, bd, st = verified_sigs(pgpy, pk)
+        if bd or st != 'ok' or len(gd) < nsig:
+            ctx.fail('signature-fails-after-import', dict(where, generation=gen, good=len(gd), bad=len(bd), expected=nsig, status=st))
+        else:
+            ctx.count('signatures_reverified', len(gd))
+        for form, data, kind in (('binary', bytes(k), 'same'), ('armor', str(k), 'same'), ('public', bytes(pk), 'public'), ('copy', bytes(copy.copy(k)), 'same')):
+            try:
+                k2 = pgpy.PGPKey.from_blob(data)[0]
+            except Exception as e:
+                ctx.fail('own-export-not-importable', dict(where, form=form, generation=gen, err=repr(e)[:160]))
+                continue
+            ctx.count('copies' if form == 'copy' else 'passes_compared')
+            t2 = keyshape.blob_tree(bytes(k2))[0]
+            ref = want if kind == 'same' else keyshape.blob_tree(bytes(pk))[0]
+            if kind == 'public':
+                # public projection: same signatures on the same components
+                if [x[2] for x in t2['uids']] != [x[2] for x in want['uids']] or [x[2] for x in t2['subkeys']] != [x[2] for x in want['subkeys']]:
+                    ctx.fail('exported-structure-differs', dict(where, form=form, generation=gen, what='signatures of the public export'))
+            elif t2 != ref:
+                ctx.fail('copy-exports-differently' if form == 'copy' else 'exported-structure-differs', dict(where, form=form, generation=gen, differs=keyshape.tree_diff(ref, t2)))
+        k = pgpy.PGPKey.from_blob(bytes(k))[0]
+    ctx.nontrivial(d)
 
 
 def _gpg(ctx, d, pgpy):
